@@ -10,14 +10,14 @@ import (
 
 // Atom is one step of a syntactic path through a function body, in evaluation order.
 type Atom struct {
-	Kind  string // call assign incdec decl cond case loop return panic funclit defer go send other
-	Node  ast.Node
-	Call  *ast.CallExpr
-	Taken bool        // cond: which edge
-	Case  *CaseInfo   // case
-	Body  []Path      // loop: paths through the body (one iteration)
-	Loop  ast.Stmt    // loop: the *ast.ForStmt or *ast.RangeStmt
-	Depth int         // inlining depth at which the atom was produced
+	Kind   string // call assign incdec decl cond case loop return panic funclit defer go send other
+	Node   ast.Node
+	Call   *ast.CallExpr
+	Taken  bool          // cond: which edge
+	Case   *CaseInfo     // case
+	Body   []Path        // loop: paths through the body (one iteration)
+	Loop   ast.Stmt      // loop: the *ast.ForStmt or *ast.RangeStmt
+	Depth  int           // inlining depth at which the atom was produced
 	Callee *ast.FuncDecl // for inlined regions: set on "enter"/"leave" atoms
 	Owner  ast.Stmt      // cond / join: the if statement
 	Lit    *ast.FuncLit  // enterlit / leavelit
